@@ -83,7 +83,7 @@ def mk(kind, mode):
 BARE = ("any_e", "any_i", "int_e", "list_i", "event_e", "str_n")
 
 
-def build(raisers, log, bare=False):
+def build(raisers, log, bare=False, sub=False):
     ns = {}
     for nm in NAMES:
         kind, mode = nm.split("_")
@@ -107,7 +107,14 @@ def build(raisers, log, bare=False):
                 raise ValueError("boom")
     if not bare:
         ns["_anytrait_changed"] = anyt
-    return type("C", (HasTraits,), ns)
+    cls = type("C", (HasTraits,), ns)
+    if sub:
+        # a subclass that only overrides DEFAULT VALUES (plain values in the class body): the comparison mode and every
+        # handler of the inherited definition stay what they were declared to be
+        over = {"int_n": 5, "int_i": 5, "int_e": 5, "str_n": "d", "str_i": "d", "any_n": None, "any_i": 1, "float_n": 1.5,
+                "float_i": 1.5}
+        cls = type("CSub", (cls,), over)
+    return cls
 
 
 @st.composite
@@ -128,6 +135,7 @@ def strategy(tier):
         # two object-level handlers registered without a name; the first may remove itself during its first call
         "object_level": st.sampled_from([None, None, "plain", "oneshot", "oneshot-raising"]),
         "bare": st.sampled_from([False, False, True]),
+        "sub_defaults": st.sampled_from([False, False, True]),
         "ops": st.lists(op_strategy(), min_size=1, max_size=30),
     })
 
@@ -141,7 +149,9 @@ def run(case, ctx):
     log = []
     raisers = set(case["raisers"])
     bare = bool(case.get("bare"))
-    cls = build(raisers, log, bare)
+    cls = build(raisers, log, bare, bool(case.get("sub_defaults")))
+    if case.get("sub_defaults"):
+        ctx.label("subclass-overriding-defaults")
     o = cls()
     if bare:
         ctx.label("bare-class")
